@@ -427,6 +427,21 @@ func c09(c *h.Ctx) {
 			k++
 		}
 	}
+	// sizes around the buffer sizes an implementation is likely to use internally (4096 and multiples, minus the
+	// 11-byte tag header and the 4-byte trailer): a tag followed by a second one, every reader in turn
+	for _, base := range []int{4096, 8192, 16384, 32768} {
+		for d := -16; d <= 4; d++ {
+			n := base + d
+			if !c.Thorough() && base > 4096 && d%4 != 0 {
+				continue
+			}
+			body, desc := flvBody(r, n)
+			small, sdesc := flvBody(r, 3)
+			tags := []flvTag{{ty: 9, ts: uint32(n), body: body, desc: desc}, {ty: 8, ts: uint32(n + 1), body: small, desc: sdesc}}
+			flvFileCase(c, fmt.Sprintf("internal-buffer-sizes/%d", base), true, true, tags, []int{k % 4})
+			k++
+		}
+	}
 	if c.Thorough() {
 		for i, ts := range []uint32{1<<24 + 1, 1<<32 - 1} {
 			body, desc := flvBody(r, 1<<24-1)
